@@ -53,6 +53,14 @@ func loadKnown() {
 			}
 			for _, s := range strings.Split(f.Match[i+len("signatures:"):], ";;") {
 				s = strings.TrimSpace(s)
+				if p := strings.SplitN(s, "|", 3); len(p) == 3 && strings.HasPrefix(p[1], "subset-of:") {
+					ss := stackSet{id: f.ID, kind: p[0], set: map[string]bool{}}
+					for _, fn := range strings.Split(strings.TrimPrefix(p[1], "subset-of:"), "+") {
+						ss.set[fn] = true
+					}
+					knownStackSets = append(knownStackSets, ss)
+					continue
+				}
 				if s != "" {
 					knownSig[s] = f.ID
 					if p := strings.SplitN(s, "|", 3); len(p) == 3 && (p[0] == "hang" || p[0] == "death-exhaust") {
@@ -66,8 +74,34 @@ func loadKnown() {
 
 func knownID(f Failure) string {
 	loadKnown()
-	return knownSig[f.Sig()]
+	if id := knownSig[f.Sig()]; id != "" {
+		return id
+	}
+	if f.Kind == "death-stack" || f.Kind == "death-exhaust" {
+		// "death-stack|subset-of:A+B+C|stack overflow": every function of the recursion cycle is one of A, B, C
+		for _, ss := range knownStackSets {
+			ok := ss.kind == f.Kind
+			for _, fn := range strings.Split(f.Fn, "+") {
+				if !ss.set[fn] {
+					ok = false
+					break
+				}
+			}
+			if ok {
+				return ss.id
+			}
+		}
+	}
+	return ""
 }
+
+type stackSet struct {
+	id   string
+	kind string
+	set  map[string]bool
+}
+
+var knownStackSets []stackSet
 
 // ---- engine ----------------------------------------------------------------------------------------
 
@@ -167,7 +201,14 @@ func (e *engine) evalAlone(c Case, img []byte) (fails []Failure, inconclusive st
 		return nil, "cannot write scratch file: " + err.Error()
 	}
 	defer os.Remove(path)
-	at := w.exec1(path, budget{cpu: aloneBudget.cpu, wall: aloneWallMax}, 0, nil)
+	var early Failure
+	at := w.exec1(path, budget{cpu: aloneBudget.cpu, wall: aloneWallMax}, earlyHangCPU, func(s [][]string) bool {
+		early = hangFailure(s)
+		return knownID(early) != "" // a listed non-termination is not waited for; anything else gets the full budget
+	})
+	if at.timedOut && early.Kind == "hang" && knownID(early) != "" {
+		return []Failure{early}, ""
+	}
 	if at.timedOut {
 		if at.cpu >= aloneBudget.cpu || at.cpu < 1 {
 			f := hangFailure(at.samples)
